@@ -13,6 +13,7 @@ import (
 	"os"
 	"strconv"
 	"strings"
+	"time"
 )
 
 type rec struct {
@@ -195,4 +196,21 @@ func TempDir() string {
 	}
 	tmpDir = d
 	return d
+}
+
+// Now is the clock of the code under test during native replay: the driver overlays copies of the
+// files listed as clock_files in which time.Now() is re-pointed here, so that the native run sees
+// exactly the instants of the solver's model. Without replay data it is the real clock.
+func Now() time.Time {
+	load()
+	if pos < len(recs) && recs[pos].Kind == "time" {
+		r := recs[pos]
+		pos++
+		ns := int64(0)
+		if len(r.B) > 0 {
+			ns = int64(r.B[0])
+		}
+		return time.Unix(int64(r.V), ns)
+	}
+	return time.Now()
 }
